@@ -73,6 +73,8 @@ type world struct {
 	// abstract program
 	prog          *program
 	mayRunForever bool
+	crashArmed    bool
+	crashed       bool
 	startMode     int
 	// handler stubs
 	openOutcome func(path string) int
@@ -92,6 +94,20 @@ func (w *world) ep(s *socket) *endpoint { return w.eps[s.Socket] }
 var errBroken = errors.New("model: transport lost")
 var errEOF = errors.New("EOF")
 
+// maybeCrash: C16 - the controlling process may be SIGKILLed at any of its visible
+// operations: all its threads vanish, its socket end closes.
+func (w *world) maybeCrash(ep *endpoint) {
+	if w.crashArmed && !w.crashed && ep.side == 0 && sym.Bool("controller_crashes_here") {
+		w.crashed = true
+		w.l.closed[0] = true
+		sym.Reach("controller-killed")
+		sym.KillPid(pidControllerModel)
+		sym.ExitThread(137)
+	}
+}
+
+const pidControllerModel = 1000
+
 func (w *world) maybeBreak() {
 	if w.breakLeft > 0 && !w.l.broken && sym.Bool("transport_breaks") {
 		w.breakLeft--
@@ -104,6 +120,7 @@ func modelSend(s *socket, e any, msg unixsocket.Msg) error {
 	w := W
 	ep := w.ep(s)
 	sym.Yield()
+	w.maybeCrash(ep)
 	w.maybeBreak()
 	if ep.l.broken || ep.l.closed[ep.side] {
 		return errBroken
@@ -140,6 +157,7 @@ func modelRecv(s *socket, e any) (unixsocket.Msg, error) {
 	ep := w.ep(s)
 	var msg unixsocket.Msg
 	sym.Yield()
+	w.maybeCrash(ep)
 	l := ep.l
 	sym.WaitUntil(func() bool {
 		return len(l.q[ep.side]) > 0 || l.closed[1-ep.side] || l.closed[ep.side] || l.broken
@@ -163,6 +181,7 @@ func modelRecv(s *socket, e any) (unixsocket.Msg, error) {
 		*dst = v
 		w.lastReplySeq = p.seq
 	}
+	w.maybeCrash(ep)
 	msg.Cred = p.cred
 	for _, f := range p.files {
 		ep.next++
@@ -360,8 +379,9 @@ func newWorld() *world {
 	cs.containerConfig.WorkDir = "/w"
 	cs.containerConfig.Mounts = nil
 	w.init = cs
+	prevPid := sym.Pid()
+	sym.SetPid(pidInit) // threads inherit the model process of their creator
 	go func() {
-		sym.SetPid(pidInit)
 		go cs.sendLoop()
 		go cs.recvLoop()
 		go cs.waitLoop()
@@ -371,6 +391,7 @@ func newWorld() *world {
 		w.initExited = true
 		w.l.closed[1] = true
 	}()
+	sym.SetPid(prevPid)
 	return w
 }
 
